@@ -671,9 +671,27 @@ def strip_xmlns(x: Any) -> Any:
 
 
 def _unprefix(x: Any) -> Any:
+    """decoded value with the prefixes of element / attribute names removed (xsi: attributes kept, xmlns pseudo-
+    attributes dropped).  Children whose names differ only in the prefix are merged into one list; lists of
+    children are compared as multisets (sorted by repr): when one name is spelled with two prefixes inside one
+    element the decoder groups the children under two keys and their relative order is lost."""
     if isinstance(x, dict):
-        return {(k if k.startswith('@xsi:') else re.sub(r'^(@?)[A-Za-z_][\w.-]*:', r'\1', k)): _unprefix(v)
-                for k, v in x.items() if not k.startswith('@xmlns')}
+        groups: dict = {}
+        for k, v in x.items():
+            if isinstance(k, str) and k.startswith('@xmlns'):
+                continue
+            k2 = k if not isinstance(k, str) or k.startswith('@xsi:') else re.sub(r'^(@?)[A-Za-z_][\w.-]*:', r'\1', k)
+            groups.setdefault(k2, []).append(v)
+        out = {}
+        for k2, vs in groups.items():
+            if len(vs) == 1 and not isinstance(vs[0], list):
+                out[k2] = _unprefix(vs[0])
+            else:
+                flat_ = []
+                for v in vs:
+                    flat_.extend(v if isinstance(v, list) else [v])
+                out[k2] = sorted((_unprefix(v) for v in flat_), key=repr)
+        return out
     if isinstance(x, list):
         return [_unprefix(v) for v in x]
     return x
